@@ -365,21 +365,40 @@ Proof.
 Qed.
 Print Assumptions C18_does_same_iff_differ.
 
-(* the coroutine variant: both are plain coroutine functions, both are awaited *)
+(* the coroutine variant: both are plain coroutine functions, both are awaited.  The other function's coroutine objects
+   are its own (behaves_as_other: VPending COther) *)
 Theorem C18_does_same_async : forall Sigma (cx : ctx Sigma) g go,
   c_iscoro (cx_callee cx CFunc) = true -> c_mode (cx_callee cx CFunc) = true ->
   c_iscoro (cx_callee cx COther) = true -> c_mode (cx_callee cx COther) = true ->
-  (forall a k s v, fst (c_call (cx_callee cx COther) a k s) = ROk v -> exists a' k', v = VPending COther a' k') ->
-  behaves_as g (cx_callee cx CFunc) -> behaves_as go (cx_callee cx COther) ->
+  behaves_as g (cx_callee cx CFunc) -> behaves_as_other go (cx_callee cx COther) ->
   repr_harmless cx ->
   same_as (spec_does_same (cx_vne cx) g go) (use_wrapped d_does_same_as_function cx).
 Proof.
-  intros Sigma cx g go Hi Hm Hio Hmo Htok Hsim Ho Hr.
+  intros Sigma cx g go Hi Hm Hio Hmo Hsim Ho Hr.
   assert (Hwu : awaited_if_coro (cx_callee cx CFunc) = true) by (unfold awaited_if_coro; now rewrite Hi, Hm).
   apply behaves_use.
-  pose proof (repr_harmless_name _ cx CFunc Hr). apply meets_does_same_async; try assumption. exact (call_awaited_other Sigma cx go Ho Hmo Htok).
+  pose proof (repr_harmless_name _ cx CFunc Hr). apply meets_does_same_async; try assumption.
+  exact (call_awaited_other Sigma cx go Ho Hmo).
 Qed.
 Print Assumptions C18_does_same_async.
+
+(* ... hence, for coroutine functions too: AssertionError iff the two awaited results differ *)
+Theorem C18_does_same_async_iff_differ : forall Sigma (cx : ctx Sigma) g go a k s v c1 v2 c2,
+  c_iscoro (cx_callee cx CFunc) = true -> c_mode (cx_callee cx CFunc) = true ->
+  c_iscoro (cx_callee cx COther) = true -> c_mode (cx_callee cx COther) = true ->
+  behaves_as g (cx_callee cx CFunc) -> behaves_as_other go (cx_callee cx COther) -> repr_harmless cx ->
+  g a k (cs s) = (ROk v, c1) -> go a k c1 = (ROk v2, c2) ->
+  let out := use_wrapped d_does_same_as_function cx a k s in
+  cs (snd out) = c2 /\
+  (fst out = RExc AssertionErrorC (XFresh 4) <-> cx_vne cx v2 v = true) /\
+  (fst out = ROk v <-> cx_vne cx v2 v = false).
+Proof.
+  intros Sigma cx g go a k s v c1 v2 c2 Hi Hm Hio Hmo Hsim Ho Hr Eg Ego out.
+  destruct (C18_does_same_async Sigma cx g go Hi Hm Hio Hmo Hsim Ho Hr a k s) as [w E].
+  subst out. rewrite E. unfold spec_does_same. rewrite Eg, Ego.
+  destruct (cx_vne cx v2 v); cbn; repeat split; intros; try reflexivity; try discriminate.
+Qed.
+Print Assumptions C18_does_same_async_iff_differ.
 
 (* deprecated: exactly one DeprecationWarning per call, whatever the warning filter was before the call, for every
    callee behaviour and every history *)
@@ -687,3 +706,27 @@ Example C18_example_count_stacked :
   ws_cnt (ws s3) = [(0%nat, 3%Z)] /\
   ws_cnt (ws (run_calls (use_wrapped d_count_calls outer) calls s3)) = [(0%nat, 6%Z); (1%nat, 3%Z)].
 Proof. vm_compute. split; reflexivity. Qed.
+
+(* the coroutine variant of does_same_as_function is not vacuous: two `async def`s whose hypotheses hold, one run in
+   which both return equal objects (the caller gets the decorated function's object, both bodies ran once), one in
+   which they differ (AssertionError, both bodies ran once) *)
+Example C18_example_does_same_async :
+  let f := beh_callee ex_beh (ex_accepts 1) CFunc true in
+  let eq_other := beh_callee ex_beh (ex_accepts 1) COther true in                             (* returns VObj 100 as well *)
+  let ne_other := beh_callee (fun _ _ _ i => Ok (VObj (200 + i))) (ex_accepts 1) COther true in
+  let cx o := Build_ctx (fun c => match c with CFunc => f | COther => o end) (fun _ => VNone) []
+                        (fun a b => match a, b with VObj n, VObj m => Nat.eqb n m | _, _ => false end)
+                        (fun a b => match a, b with VObj n, VObj m => negb (Nat.eqb n m) | _, _ => true end)
+                        (fun _ _ => None) raise_warning_prog 0 ex_repr in
+  behaves_as (jbase ex_beh (ex_accepts 1) CFunc) f /\ behaves_as_other (jbase ex_beh (ex_accepts 1) COther) eq_other /\
+  c_iscoro f = true /\ c_mode eq_other = true /\ repr_harmless (cx eq_other) /\
+  use_wrapped d_does_same_as_function (cx eq_other) [VObj 1] [] ex_s0
+    = (ROk (VObj 100), Build_st [CallRec CFunc [VObj 1] []; CallRec COther [VObj 1] []] ex_ws) /\
+  use_wrapped d_does_same_as_function (cx ne_other) [VObj 1] [] ex_s0
+    = (RExc AssertionErrorC (XFresh 4), Build_st [CallRec CFunc [VObj 1] []; CallRec COther [VObj 1] []] ex_ws).
+Proof.
+  cbn zeta. repeat split; try reflexivity.
+  - apply beh_callee_behaves.
+  - apply beh_callee_other_async.
+  - intros v s. eexists. reflexivity.
+Qed.
